@@ -170,6 +170,7 @@ def check_case(ctx, case, collected=None):
             return
     finally:
         c06.AREPR = None
+    closure_history(ctx, case, built, fail)
     # non-triviality
     ar = c06.AREPR or make_arepr(case.get("limits")) or __import__("icontract")._globals.aRepr
     exceeds = any(("..." in v) for _, v in parsed["entries"] if isinstance(v, str))
@@ -185,6 +186,35 @@ def check_case(ctx, case, collected=None):
         "message": ref.split("\n", 1)[1][:500] if "\n" in ref else ref})
     if collected is not None and len(collected) < 400:
         collected.append((case, ref))
+
+
+NEW_CLOSURE = {"C": 13, "CS": "czq", "CL": [1, 2, 3, 9], "H": 201}
+
+
+def closure_history(ctx, case, built, fail):
+    """'independent of earlier calls': violate, re-bind the closure variables of the condition in the enclosing scope,
+    violate again - the second message must be the one a fresh module gives whose closure had the new values from the start."""
+    used = {n.id for n in ast.walk(ast.parse(built["ctext"], mode="eval")) if isinstance(n, ast.Name)} & set(GR.CLOSURE)
+    old_line = "F = make(%(C)r, %(CS)r, %(CL)r, %(H)r)" % GR.CLOSURE_VALUES
+    if not used or old_line not in built["text"]:
+        return
+    role = case.get("role", "require")
+    order = list(case["perm"]) + [n for n in list(GR.ARGS) + ["Y"] if n not in case["perm"]]
+    with RD.Module(built["text"]) as mod:
+        RD.call(mod, role, case["async"], built["inputs"], order=order, npos=0)
+        mod.mod.F.rebind(NEW_CLOSURE["C"], NEW_CLOSURE["CS"], list(NEW_CLOSURE["CL"]), NEW_CLOSURE["H"])
+        second = RD.call(mod, role, case["async"], built["inputs"], order=order, npos=0)
+    fresh_text = built["text"].replace(old_line, "F = make(%(C)r, %(CS)r, %(CL)r, %(H)r)" % NEW_CLOSURE)
+    with RD.Module(fresh_text) as mod:
+        fresh = RD.call(mod, role, case["async"], built["inputs"], order=order, npos=0)
+    ctx.count("closure re-bound between two violations")
+
+    def view(e):
+        return normalise(str(e)) if type(e).__name__ == "ViolationError" else repr(type(e).__name__ if e is not None else None)
+
+    if view(second) != view(fresh):
+        fail("(2)message-depends-on-history", "after the closure variables %s were re-bound the message is\n%s\n--- a fresh "
+             "function whose closure had these values from the start gives ---\n%s" % (sorted(used), view(second), view(fresh)))
 
 
 def extra_bindings(case, named, built):
